@@ -187,7 +187,7 @@ func sweepC04(m mapperT, tb2p, tp2b []pageLine, is *issues) (nRI, nCol uint64) {
 		if tbl[a/pageSize].U == 0 {
 			return
 		}
-		if ok != (err == nil) || (ok && want != r) {
+		if ok != (err == nil) || (ok && want != r && dir == "b2p") {
 			is.add("unstable", m.name, dir, a, fmt.Sprintf("in a mixed call sequence f(%#x)=%#x err=%v, but %#x mapped=%v when swept alone", a, r, err, want, ok))
 		}
 		if dir == "b2p" && err == nil && pakClassOut(r) == "bad" {
@@ -234,9 +234,11 @@ func sweepC04(m mapperT, tb2p, tp2b []pageLine, is *issues) (nRI, nCol uint64) {
 }
 
 // The eight translation functions are STATELESS: whatever was called before -- the same function, the other direction,
-// another mapper -- every result must be the one the linear sweep recorded.  Seeded call sequences with structured
-// address relations (same address, one bit flipped, +/- $800000, same page offset elsewhere, unrelated) over all eight
-// functions; a pak->bus answer that differs is also judged against the C04 statement itself.
+// another mapper -- a bus->pak answer must be the one the linear sweep recorded (C05 fixes it completely), and a pak->bus
+// answer must accept/reject the same addresses and satisfy the C04 statement (right inverse, collapse onto the same
+// class and page offset).  Seeded EPISODES: a small working set of related addresses (same address, one bit flipped,
+// +/- $800000, same offset elsewhere, unrelated) and of functions, revisited in random order, so that single- and
+// multi-entry memo tables, "last region" hints and state shared between mappers or directions are exercised.
 func historyProbe(all []pageLine, is *issues, n int) int {
 	r := rand.New(rand.NewSource(seedEnv() + 77))
 	type fn struct {
@@ -244,11 +246,14 @@ func historyProbe(all []pageLine, is *issues, n int) int {
 		f       mapFn
 		tbl     []pageLine
 		b2p     []pageLine // the same mapper's bus->pak table
+		p2b     []pageLine
+		mi      int
 	}
 	var fns []fn
 	for i, m := range mappers {
-		fns = append(fns, fn{m.name, "b2p", m.b2p, all[i*nPages : (i+1)*nPages], all[i*nPages : (i+1)*nPages]})
-		fns = append(fns, fn{m.name, "p2b", m.p2b, all[(4+i)*nPages : (5+i)*nPages], all[i*nPages : (i+1)*nPages]})
+		b, p := all[i*nPages:(i+1)*nPages], all[(4+i)*nPages:(5+i)*nPages]
+		fns = append(fns, fn{m.name, "b2p", m.b2p, b, b, p, i})
+		fns = append(fns, fn{m.name, "p2b", m.p2b, p, b, p, i})
 	}
 	image := make([]map[uint32]bool, len(mappers)) // pak pages in the image of each mapper's bus->pak
 	for i := range mappers {
@@ -259,66 +264,87 @@ func historyProbe(all []pageLine, is *issues, n int) int {
 			}
 		}
 	}
-	interesting := []uint32{0, 0x1FFF, 0x2000, 0x5FFF, 0x6000, 0x7FFF, 0x8000, 0xFFFF, 0x3F0000, 0x400000, 0x600000, 0x700000, 0x7D0000, 0x7E0000,
-		0x7FFFFF, 0x800000, 0xC00000, 0xE00000, 0xEFFFFF, 0xF00000, 0xF4FFFF, 0xF50000, 0xF6FFFF, 0xF70000, 0xFFFFFF}
+	interesting := []uint32{0, 0x1FFF, 0x2000, 0x5FFF, 0x6000, 0x7FFF, 0x8000, 0xFFFF, 0x3E0000, 0x3F0000, 0x400000, 0x600000, 0x700000, 0x7D0000,
+		0x7E0000, 0x7FFFFF, 0x800000, 0xBE0000, 0xC00000, 0xE00000, 0xE40000, 0xEFFFFF, 0xF00000, 0xF4FFFF, 0xF50000, 0xF6FFFF, 0xF70000, 0xFFFFFF}
 	pick := func() uint32 {
 		if r.Intn(3) == 0 {
 			return (interesting[r.Intn(len(interesting))] + uint32(r.Intn(5)) - 2) & 0xFFFFFF
 		}
 		return uint32(r.Intn(1 << 24))
 	}
-	a := pick()
-	calls := 0
-	for i := 0; i < n; i++ {
-		switch r.Intn(8) {
-		case 0: // same address again
+	related := func(a uint32) uint32 {
+		switch r.Intn(7) {
+		case 0:
+			return a ^ 1<<uint(r.Intn(24))
 		case 1:
-			a ^= 1 << uint(r.Intn(24))
+			return (a + 0x800000) & 0xFFFFFF
 		case 2:
-			a = (a + 0x800000) & 0xFFFFFF
+			return a&0x1FFF | uint32(r.Intn(nPages))*pageSize // same offset, other page
 		case 3:
-			a = a&0x1FFF | uint32(r.Intn(nPages))*pageSize // same offset, other page
+			return a&0xFFFF | uint32(r.Intn(256))<<16 // same offset, other bank
 		case 4:
-			a = a&0xFFFF | uint32(r.Intn(256))<<16 // same offset, other bank
+			return (a + uint32(r.Intn(3)) - 1) & 0xFFFFFF
 		case 5:
-			a = (a + uint32(r.Intn(3)) - 1) & 0xFFFFFF
-		default:
-			a = pick()
+			return (a + 0x400000) & 0xFFFFFF
 		}
-		k := r.Intn(len(fns))
-		if r.Intn(3) == 0 {
-			k = k&1 | r.Intn(4)<<1 // same direction, any mapper
-		}
-		f := fns[k]
+		return pick()
+	}
+	check := func(f fn, a uint32) {
 		if f.tbl[a/pageSize].U == 0 {
-			continue
+			return
 		}
 		got, err, pan := safeCall(f.f, a)
-		calls++
 		want, ok := fromTable(f.tbl, a)
-		if pan || ok != (err == nil) || (ok && want != got) {
-			is.add("unstable", f.mp, f.dir, a, fmt.Sprintf("after other calls f(%#x)=%#x err=%v panic=%v, but %#x mapped=%v when swept alone", a, got, err, pan, want, ok))
-			if f.dir == "p2b" && err == nil && !pan {
-				// the C04 statement for this answer
-				q, mapped := fromTable(f.b2p, got)
-				switch {
-				case !mapped:
-					is.add("c04_collapse", f.mp, "", a, fmt.Sprintf("after other calls P2B(%#x)=%#x which B2P does not map", a, got))
-				case image[k>>1][a/pageSize] && q != a:
-					is.add("c04_rightinverse", f.mp, "", a, fmt.Sprintf("after other calls P2B(%#x)=%#x but B2P(%#x)=%#x", a, got, got, q))
-				case pakClassOut(q) != pakClassIn(a) || q%pageSize != a%pageSize:
-					is.add("c04_collapse", f.mp, "", a, fmt.Sprintf("after other calls P2B(%#x)=%#x, B2P=%#x: other class or page offset", a, got, q))
-				}
-			}
-			if f.dir == "b2p" && err == nil && !pan {
-				// right inverse through this answer: P2B(got) must lead back to got
-				p2bTbl := all[(4+k>>1)*nPages : (5+k>>1)*nPages]
-				if a2, ok2 := fromTable(p2bTbl, got); !ok2 {
-					is.add("c04_rightinverse", f.mp, "", a, fmt.Sprintf("after other calls B2P(%#x)=%#x which P2B rejects", a, got))
-				} else if q, ok3 := fromTable(f.tbl, a2); !ok3 || q != got {
-					is.add("c04_rightinverse", f.mp, "", a, fmt.Sprintf("after other calls B2P(%#x)=%#x, P2B=%#x, B2P again=%#x", a, got, a2, q))
-				}
-			}
+		if pan {
+			is.add("panic", f.mp, f.dir, a, "mapper panicked after other calls")
+			return
+		}
+		if ok != (err == nil) {
+			is.add("unstable", f.mp, f.dir, a, fmt.Sprintf("after other calls f(%#x)=%#x err=%v, but mapped=%v when swept alone", a, got, err, ok))
+			return
+		}
+		if !ok || want == got {
+			return
+		}
+		if f.dir == "b2p" {
+			is.add("unstable", f.mp, f.dir, a, fmt.Sprintf("after other calls B2P(%#x)=%#x, but %#x when swept alone", a, got, want))
+			return
+		}
+		// a different pak->bus answer is allowed only if it still satisfies the C04 statement
+		q, mapped := fromTable(f.b2p, got)
+		switch {
+		case !mapped:
+			is.add("c04_collapse", f.mp, "", a, fmt.Sprintf("after other calls P2B(%#x)=%#x which B2P does not map", a, got))
+		case image[f.mi][a/pageSize] && q != a:
+			is.add("c04_rightinverse", f.mp, "", a, fmt.Sprintf("after other calls P2B(%#x)=%#x but B2P(%#x)=%#x", a, got, got, q))
+		case pakClassOut(q) != pakClassIn(a) || q%pageSize != a%pageSize:
+			is.add("c04_collapse", f.mp, "", a, fmt.Sprintf("after other calls P2B(%#x)=%#x, B2P=%#x: other class or page offset", a, got, q))
+		}
+	}
+	calls := 0
+	for calls < n {
+		// working sets of this episode
+		na := 2 + r.Intn(3)
+		addrs := []uint32{pick()}
+		for len(addrs) < na {
+			addrs = append(addrs, related(addrs[r.Intn(len(addrs))]))
+		}
+		var fs []fn
+		switch r.Intn(4) {
+		case 0: // one function
+			fs = []fn{fns[r.Intn(len(fns))]}
+		case 1: // both directions of one mapper
+			k := r.Intn(4)
+			fs = []fn{fns[2*k], fns[2*k+1]}
+		case 2: // one direction, two mappers
+			d := r.Intn(2)
+			fs = []fn{fns[2*r.Intn(4)+d], fns[2*r.Intn(4)+d]}
+		default:
+			fs = []fn{fns[r.Intn(len(fns))], fns[r.Intn(len(fns))], fns[r.Intn(len(fns))]}
+		}
+		for k := 4 + r.Intn(8); k > 0; k-- {
+			check(fs[r.Intn(len(fs))], addrs[r.Intn(len(addrs))])
+			calls++
 		}
 	}
 	return calls
@@ -331,12 +357,26 @@ func init() {
 		}
 		outdir := args[0]
 		var is issues
-		var all []pageLine
-		for i, m := range mappers {
-			all = append(all, sweepTable(i, m.name, "b2p", m.b2p, &is)...)
+		// the order in which a process first touches the eight functions is part of the history: the default is
+		// bus->pak first, mapper order; VERIF_ORDER=pakfirst sweeps pak->bus first, mappers reversed (the driver runs
+		// one process of each kind)
+		all := make([]pageLine, 8*nPages, 10*nPages)
+		sweepInto := func(t int) {
+			m := mappers[t%4]
+			if t < 4 {
+				copy(all[t*nPages:], sweepTable(t, m.name, "b2p", m.b2p, &is))
+			} else {
+				copy(all[t*nPages:], sweepTable(t, m.name, "p2b", m.p2b, &is))
+			}
 		}
-		for i, m := range mappers {
-			all = append(all, sweepTable(4+i, m.name, "p2b", m.p2b, &is)...)
+		if os.Getenv("VERIF_ORDER") == "pakfirst" {
+			for _, t := range []int{7, 6, 5, 4, 3, 2, 1, 0} {
+				sweepInto(t)
+			}
+		} else {
+			for t := 0; t < 8; t++ {
+				sweepInto(t)
+			}
 		}
 		var nRI, nCol uint64
 		for i, m := range mappers {
@@ -351,7 +391,11 @@ func init() {
 		histCalls := historyProbe(all, &is, nHist)
 		sysInfo := map[string]interface{}{}
 		if len(args) < 2 || args[1] != "nosystem" {
-			rd, wr, info := probeSystem(&is)
+			variant := ""
+			if len(args) >= 2 {
+				variant = args[1]
+			}
+			rd, wr, info := probeSystem(&is, variant)
 			all = append(all, rd...)
 			all = append(all, wr...)
 			sysInfo = info
